@@ -28,7 +28,9 @@ ASSUMPTIONS = ["EPR responses are delivered on demand (one per blocked wait) on 
                "counted as live by the harness; the property demands the SDK agrees",
                "gates act on the first and the last live handle only (bounds the branching), cnot on (first,last) and (last,first)"]
 
-CONFIGS = ["generic", "nv", "nv+transpiler"]
+# "transpiler-only": the NV transpiler is configured but no hardware configuration is given (the builder then has to assume
+# NV hardware by itself: one communication qubit, virtual ID 0 kept free)
+CONFIGS = ["generic", "nv", "nv+transpiler", "transpiler-only"]
 
 
 class World:
@@ -50,6 +52,9 @@ class World:
         flavour = None
         if config == "generic":
             kwargs["hardware_config"] = GenericHardwareConfig(budget)
+        elif config == "transpiler-only":
+            kwargs["compiler"] = NVSubroutineTranspiler
+            flavour = NVFlavour()
         else:
             kwargs["hardware_config"] = NVHardwareConfig(budget)
             if config == "nv+transpiler":
@@ -88,6 +93,8 @@ def events_for(w: World) -> List[Tuple]:
         ev.append(("recv_seq_post", 2))
         ev.append(("create_seq_post", 1))
         ev.append(("recv_seq_post", 1))
+        ev.append(("create_dep_seq_post", 1))
+        ev.append(("recv_dep_seq_post", 1))
         ev.append(("create_context_seq", 2))
         ev.append(("recv_context_seq", 2))
         ev.append(("create_context_seq", 1))
@@ -123,7 +130,7 @@ def apply(w: World, ev: Tuple) -> None:
         w.live[ev[1]].H()
     elif k == "cnot":
         a, b = w.live[ev[1]], w.live[ev[2]]
-        if w.config == "nv+transpiler" and a.qubit_id != 0 and b.qubit_id != 0 and all(q.qubit_id != 0 for q in w.live):
+        if w.config in ("nv+transpiler", "transpiler-only") and a.qubit_id != 0 and b.qubit_id != 0 and all(q.qubit_id != 0 for q in w.live):
             w.cc_free_electron = True
         a.cnot(b)
     elif k == "meas_inplace":
@@ -143,6 +150,16 @@ def apply(w: World, ev: Tuple) -> None:
         qs = f(number=ev[1], sequential=True)
         qs[0].H()
         w.live.extend(qs)
+    elif k in ("create_dep_seq_post", "recv_dep_seq_post"):
+        # the deprecated dispatcher EPRSocket.create / recv(tp=K) forwards to the same builder entry points
+        from netqasm.sdk.epr_socket import EPRType
+
+        def post_d(c, q, pair):
+            q.H()
+            q.measure()
+        f = epr.create if k.startswith("create") else epr.recv
+        f(number=ev[1], tp=EPRType.K, post_routine=post_d, sequential=True)
+        w.must_flush = True
     elif k in ("create_seq_post", "recv_seq_post"):
         def post(c, q, pair):
             q.H()
@@ -227,6 +244,10 @@ def expand(shard):
             case = {"budget": budget, "config": config, "history": [list(e) for e in h2]}
             flushed = ev[0] == "flush" or w.autoflush
             cfg0 = config.split("/")[0]
+            if cfg0 == "transpiler-only":
+                # must behave exactly like "nv+transpiler" (the builder assumes NV hardware by itself): same fingerprints, so
+                # the open NV findings are recognised here too; the case and the message name the real configuration
+                cfg0 = "nv+transpiler"
             blame = (lambda k: h2[k][0]) if w.autoflush else (lambda k: _blame(h2, k))
             if err is not None:
                 i, cls, msg = err
@@ -269,7 +290,8 @@ def _blame(history, i) -> str:
         if k != "flush":
             kinds.append(k)
         j -= 1
-    pri = ["create_context_seq", "recv_context_seq", "create_context", "recv_context", "create_seq_post", "recv_seq_post", "free",
+    pri = ["create_context_seq", "recv_context_seq", "create_context", "recv_context", "create_seq_post", "recv_seq_post",
+           "create_dep_seq_post", "recv_dep_seq_post", "free",
            "create_keep_seq", "recv_keep_seq", "create_keep", "recv_keep", "cnot",
            "measure", "meas_inplace", "new", "gate"]
     for p in pri:
@@ -377,7 +399,9 @@ def run(ctx):
         for budget, depth in plan.items():
             if config != "generic" and budget == 1:
                 continue       # single-communication-qubit hardware with one qubit: no live qubit allowed at all
-            bfs(ctx, budget, config, depth, cap)
+            if config == "transpiler-only" and budget != 3:
+                continue       # one budget: the configuration only differs in how the builder learns about the hardware
+            bfs(ctx, budget, config, min(depth, 3) if config == "transpiler-only" else depth, cap)
     # every operation flushed at once: run until the frontier is empty (all histories of any length)
     for config in CONFIGS:
         for budget in (2, 3, 4):
